@@ -604,6 +604,11 @@ def run(prog: Program, rep: Report, tier: str) -> None:
     masking(prog, rep, "R02.4")
     packing_per_file(prog, rep)
     mask_construction(prog, rep, "R02.4")
+    from ..share import share
+
+    share(prog, rep, "C01", ("R01.1", "R01.4"), "R02.8", "the schemes hand the particle's own (x, y, z) to the velocity sampler, in that order", 3)
+    share(prog, rep, "C17", ("R17.1",), "R02.9", "the grid arrays are read at the particle's own cell (row from y, column from x, subgrid offsets of the same axis)", 10, only=lambda o: "ROMS.Grid." in o.func or "ROMS.Forcing.update" in o.construct or "z2s" in o.func)
+
 
 
 from ..selftest import Mut  # noqa: E402
